@@ -81,6 +81,8 @@ def copy_args(body):
     if body is None:
         return None
     copies = re.findall(r"(?:std::)?ptr::copy(?:_nonoverlapping)?\s*\(\s*([^,]+),\s*([^,]+),\s*([^;]+?)\)\s*;", body)
+    if len(copies) == 0 and not re.search(r"\bptr::\w+", body):
+        return "absent"
     if len(copies) != 1:
         return None
     s, d, c = [x.strip() for x in copies[0]]
@@ -132,7 +134,8 @@ def count_unsafe(src):
     blocks = len(re.findall(r"\bunsafe\s*\{", code))
     fns = len(re.findall(r"\bunsafe\s+fn\b", code))
     impls = len(re.findall(r"\bunsafe\s+impl\b", code))
-    raw = len(re.findall(r"ptr::|\.as_mut_ptr\(\)|\.as_ptr\(\)|get_unchecked|from_raw_parts|transmute|\.offset\(|ptr\.add\(", code))
+    # raw memory *access* primitives (pointer arithmetic such as `ptr.add` / `as_mut_ptr` is not an access)
+    raw = len(re.findall(r"\bptr::\w+|get_unchecked|from_raw_parts|transmute|from_ptr\b|\.offset\(|[.:]read_unaligned\(|[.:]write_unaligned\(|[.:]read_volatile\(|[.:]write_volatile\(|\.as_ref\(\)\.unwrap_unchecked", code))
     return blocks, fns, impls, raw
 
 
@@ -145,12 +148,23 @@ def main():
     aset = strip_tests(read("src/collections/array_set.rs"))
     ins = copy_args(function_body(aset, "insert"))
     take = copy_args(function_body(aset, "take"))
-    if ins is None:
+    modelled = 0
+    if ins == "absent":
+        ins = ("0", "0", "0")   # no raw copy in `insert` any more: nothing to bound
+    elif ins is None:
         unparsed.append("array_set.rs insert: ptr::copy arguments")
         ins = ("index", "index + 1", "len - index")
-    if take is None:
+        modelled += 1
+    else:
+        modelled += 1
+    if take == "absent":
+        take = ("0", "0", "0")
+    elif take is None:
         unparsed.append("array_set.rs take: ptr::copy arguments")
         take = ("index + 1", "index", "len - index - 1")
+        modelled += 1
+    else:
+        modelled += 1
     facts["insert_copy"] = ins
     facts["take_copy"] = take
 
@@ -169,6 +183,8 @@ def main():
         f"def takeCopySrc (index len slots : Nat) : Nat := {take[0]}",
         f"def takeCopyDst (index len slots : Nat) : Nat := {take[1]}",
         f"def takeCopyCnt (index len slots : Nat) : Nat := {take[2]}",
+        "/-- number of raw copies of array_set.rs that the definitions above describe -/",
+        f"def modelledCopies : Nat := {modelled}",
         "",
     ]
 
@@ -180,7 +196,7 @@ def main():
                     ("src/pod/pod_bool.rs", "podBool"), ("src/pod/pod_option.rs", "podOption"), ("src/lib.rs", "lib")]:
         inv[nm] = count_unsafe(read(rel))
         b, f, i, r = inv[nm]
-        lines.append(f"/-- {rel}: unsafe blocks, unsafe fns, unsafe impls, raw-pointer tokens (non-test code). -/")
+        lines.append(f"/-- {rel}: unsafe blocks, unsafe fns, unsafe impls, raw memory-access primitives (non-test code). -/")
         lines.append(f"def unsafe_{nm} : Nat × Nat × Nat × Nat := ({b}, {f}, {i}, {r})")
     facts["unsafe_inventory"] = inv
     lines.append("")
